@@ -14,7 +14,44 @@ import (
 func TestMain(m *testing.M) {
 	vh.Rule("exhaustive: every sql.IsolationLevel -8..64 (x50 calls), every ASEIsolationLevel -4..8 (x2000 calls of ToGo and String), every supported non-default level there-and-back x2000; rapid: random call histories of FromGo/ToGo/String (2..40 calls) checked for answer stability; 5+ separate processes whose recorded answers must agree. Non-trivial: a level whose ASE target is shared by several sql levels (the only place iteration order can matter), a supported non-default round trip, or a history that asks the same question twice; distinct by level / by call sequence")
 	vh.Assume("the exported ASELevel* constants are the four ASE levels; the oracle table is written from the property text")
+	// answers given before anything else in this process has used the package: the result must
+	// not depend on which function happened to be called first
+	for a := -4; a <= 8; a++ {
+		earlyToGo[a] = int(dblib.ASEIsolationLevel(a).ToGo())
+		earlyString[a] = dblib.ASEIsolationLevel(a).String()
+	}
 	vh.Main(m, "C20")
+}
+
+var earlyToGo, earlyString = map[int]int{}, map[int]string{}
+
+type earlyCase struct {
+	ASE int `json:"ase"`
+}
+
+func runEarly(c earlyCase) *vh.Failure {
+	// make sure the forward direction has been used at least once by now
+	_, _ = dblib.ASEIsolationLevelFromGo(sql.LevelSerializable)
+	a := dblib.ASEIsolationLevel(c.ASE)
+	if g := int(a.ToGo()); g != earlyToGo[c.ASE] {
+		return vh.Failf("C20/answer-depends-on-call-history", "ASE level %d: ToGo answered %d as the very first call of the process and answers %d now", c.ASE, earlyToGo[c.ASE], g)
+	}
+	if s := a.String(); s != earlyString[c.ASE] {
+		return vh.Failf("C20/answer-depends-on-call-history", "ASE level %d: String answered %q as the very first call of the process and answers %q now", c.ASE, earlyString[c.ASE], s)
+	}
+	vh.NonTrivial(fmt.Sprint("early", c.ASE))
+	return nil
+}
+
+func TestFirstCallOfTheProcess(t *testing.T) {
+	e := vh.NewEnum(t, "TestFirstCallOfTheProcess", runEarly)
+	if e.Skip() {
+		return
+	}
+	for a := -4; a <= 8; a++ {
+		e.Do(earlyCase{ASE: a})
+	}
+	e.Done("ToGo/String of every ASE level as the first calls of the process vs. later")
 }
 
 // reference: what the property states.
